@@ -47,12 +47,21 @@ func genParam(r *rand.Rand, f32, f64 map[uint64]string) aparam {
 		return aparam{"int", []uint64{uint64(v)}, strconv.FormatInt(v, 10)}
 	case 2:
 		v := int8(r.Intn(256))
+		if r.Intn(4) == 0 {
+			v = []int8{-128, 127, -1, 0}[r.Intn(4)]
+		}
 		return aparam{"int8", []uint64{uint64(uint8(v))}, strconv.FormatInt(int64(v), 10)}
 	case 3:
 		v := int16(r.Intn(65536))
+		if r.Intn(4) == 0 {
+			v = []int16{-32768, 32767, -1, 0}[r.Intn(4)]
+		}
 		return aparam{"int16", []uint64{uint64(uint16(v))}, strconv.FormatInt(int64(v), 10)}
 	case 4:
 		v := int32(r.Uint32())
+		if r.Intn(4) == 0 {
+			v = []int32{-2147483648, 2147483647, -1, 0}[r.Intn(4)]
+		}
 		return aparam{"int32", []uint64{uint64(uint32(v))}, strconv.FormatInt(int64(v), 10)}
 	case 5:
 		v := int64(r.Uint64())
@@ -261,6 +270,11 @@ func opAugment(r *rand.Rand, n int, tier string, seed int64) {
 			delete(files, file)
 		case 1: // unparsable
 			files[file] = "package main\nfunc {{{\n"
+			if r.Intn(2) == 0 {
+				// a syntax error from which go/parser recovers a partial AST: a closing brace removed inside the
+				// first function (same line numbers); the file still does not parse, so nothing may be augmented
+				files[file] = strings.Replace(src.String(), "\tmark()\n}\n", "\tmark()\n\n", 1)
+			}
 		}
 		// one goroutine, one frame per function
 		gr := dGoroutine{ID: 1, State: "running", ElideAfter: -1}
